@@ -49,6 +49,7 @@ type Finding struct {
 type Ctx struct {
 	Prop, Tier, Level string
 	OutDir            string
+	FindingsDir       string // where known_findings.json lives (default OutDir)
 	Seed              int64
 	obs               []Ob
 	seen              map[string]bool
@@ -157,7 +158,11 @@ func (c *Ctx) Finish() int {
 				Detail: fmt.Sprintf("rule matched %d instances, fewer than the %d confirmed by hand: the anchor moved or the rule passes vacuously", r.N, r.Min)})
 		}
 	}
-	findings, ferr := loadFindings(c.OutDir)
+	fd := c.FindingsDir
+	if fd == "" {
+		fd = c.OutDir
+	}
+	findings, ferr := loadFindings(fd)
 	if ferr != nil {
 		c.add(Ob{Rule: "known-findings", Key: "known_findings.json", Verdict: Undecided, Detail: ferr.Error()})
 	}
